@@ -183,6 +183,18 @@ pub fn conv_ty(t: &Type, adts: &dyn Fn(&str) -> Option<Ty>, generics: &BTreeSet<
                 Ok(Ty::Tuple(tt.elems.iter().map(|x| conv_ty(x, adts, generics, self_ty)).collect::<R<Vec<_>>>()?))
             }
         }
+        Type::Infer(_) => Ok(Ty::Infer),
+        Type::BareFn(f) => {
+            let mut a = vec![];
+            for i in f.inputs.iter() {
+                a.push(conv_ty(&i.ty, adts, generics, self_ty)?);
+            }
+            let r = match &f.output {
+                ReturnType::Default => Ty::Unit,
+                ReturnType::Type(_, t) => conv_ty(t, adts, generics, self_ty)?,
+            };
+            Ok(Ty::Fn(a, Box::new(r)))
+        }
         Type::Array(a) => {
             // [T; N] with a literal N is modelled as the N-tuple
             let n = match &a.len {
@@ -210,6 +222,12 @@ pub fn conv_ty(t: &Type, adts: &dyn Fn(&str) -> Option<Ty>, generics: &BTreeSet<
             };
             if let Some(i) = IntTy::from_name(&name) {
                 return Ok(Ty::Int(Some(i)));
+            }
+            if p.path.segments.len() == 2 && p.path.segments[0].ident == "Self" && matches!(seg.arguments, PathArguments::None) {
+                // `Self::Assoc` where the impl says `type Assoc = <integer type>;`
+                if let Some(t) = adts(&format!("Self::{}", name)) {
+                    return Ok(t);
+                }
             }
             if !matches!(seg.arguments, PathArguments::None) {
                 // a configured monomorphic instance of a generic struct (`MajorMinor<i32>`)
@@ -265,6 +283,8 @@ struct EffVisitor<'m> {
     mut_methods: &'m BTreeSet<String>,
     fuel_names: &'m BTreeSet<String>,
     mutarg_names: &'m BTreeSet<String>,
+    /// identifier of the current `Self` type
+    self_name: Option<String>,
 }
 
 impl<'m> EffVisitor<'m> {
@@ -282,6 +302,16 @@ impl<'m> EffVisitor<'m> {
             }
         }
     }
+}
+
+/// `R::load::<O>` -> "R::load::<O>" (the generic arguments are part of the identity of the item)
+pub fn generic_item_key(p: &Path) -> String {
+    let mut k = p.segments.iter().map(|s| s.ident.to_string()).collect::<Vec<_>>().join("::");
+    if let PathArguments::AngleBracketed(a) = &p.segments.last().unwrap().arguments {
+        let t: String = quote::ToTokens::to_token_stream(&a.args).to_string().chars().filter(|c| !c.is_whitespace()).collect();
+        k.push_str(&format!("::<{}>", t));
+    }
+    k
 }
 
 pub fn place_root(e: &Expr) -> Option<String> {
@@ -337,6 +367,22 @@ impl<'ast, 'm> Visit<'ast> for EffVisitor<'m> {
                 self.eff.assigned.insert(r);
             }
         }
+        if n == "inspect" {
+            // `opt.inspect(|_| { statements })` runs the statements
+            for a in i.args.iter() {
+                if let Expr::Closure(c) = a {
+                    self.visit_expr(&c.body);
+                }
+            }
+        }
+        if n == "copy_from_slice" {
+            // `x[a..b].copy_from_slice(..)` / `x.copy_from_slice(..)` write x
+            let mut r: &Expr = &i.receiver;
+            while let Expr::Index(ix) = r {
+                r = &ix.expr;
+            }
+            self.eff.assigned.insert(place_root(r).unwrap_or_else(|| "<complex place>".into()));
+        }
         if self.fuel_names.contains(&n) || (n == "last" && i.args.is_empty()) {
             self.eff.ret = true;
         }
@@ -351,6 +397,8 @@ impl<'ast, 'm> Visit<'ast> for EffVisitor<'m> {
                 let hit = if segs.len() >= 2 && segs[segs.len() - 2] != "Self" {
                     // `Type::name`: only a fuelled function of that type
                     self.fuel_names.contains(&format!("{}::{}", segs[segs.len() - 2], n))
+                } else if segs.len() >= 2 && self.self_name.is_some() {
+                    self.fuel_names.contains(&format!("{}::{}", self.self_name.as_ref().unwrap(), n))
                 } else {
                     self.fuel_names.contains(&n)
                 };
@@ -382,7 +430,21 @@ impl<'ast, 'm> Visit<'ast> for EffVisitor<'m> {
     fn visit_expr_continue(&mut self, _i: &'ast ExprContinue) {
         self.eff.ret = true;
     }
-    fn visit_expr_closure(&mut self, _i: &'ast ExprClosure) {}
+    fn visit_expr_closure(&mut self, i: &'ast ExprClosure) {
+        // closures are translated as pure functions; the only writes looked for inside are the mutable sub-slice chains
+        struct G<'e>(&'e mut BTreeSet<String>);
+        impl<'ast, 'e> Visit<'ast> for G<'e> {
+            fn visit_expr_method_call(&mut self, m: &'ast ExprMethodCall) {
+                if m.method == "get_mut" {
+                    if let Some(r) = place_root(&m.receiver) {
+                        self.0.insert(r);
+                    }
+                }
+                visit::visit_expr_method_call(self, m);
+            }
+        }
+        G(&mut self.eff.assigned).visit_expr_closure(i);
+    }
     fn visit_item(&mut self, _i: &'ast Item) {}
 }
 
@@ -407,12 +469,12 @@ impl<'a> Tr<'a> {
     }
 
     pub fn effects_expr(&self, e: &Expr) -> Eff {
-        let mut v = EffVisitor { eff: Eff::default(), mut_methods: &self.mut_methods, fuel_names: &self.fuel_names, mutarg_names: &self.mutarg_names };
+        let mut v = EffVisitor { eff: Eff::default(), mut_methods: &self.mut_methods, fuel_names: &self.fuel_names, mutarg_names: &self.mutarg_names, self_name: self.self_ty.as_deref().map(|s| s.rsplit('.').next().unwrap().split('<').next().unwrap().to_string()) };
         v.visit_expr(e);
         v.eff
     }
     pub fn effects_stmts(&self, s: &[Stmt]) -> Eff {
-        let mut v = EffVisitor { eff: Eff::default(), mut_methods: &self.mut_methods, fuel_names: &self.fuel_names, mutarg_names: &self.mutarg_names };
+        let mut v = EffVisitor { eff: Eff::default(), mut_methods: &self.mut_methods, fuel_names: &self.fuel_names, mutarg_names: &self.mutarg_names, self_name: self.self_ty.as_deref().map(|s| s.rsplit('.').next().unwrap().split('<').next().unwrap().to_string()) };
         for x in s {
             v.visit_stmt(x);
         }
@@ -450,7 +512,10 @@ impl<'a> Tr<'a> {
                     return Err(unsupported(p, "`ref` / `ref mut` binding (reference bindings are not modelled)"));
                 }
                 // an identifier pattern that names a const / unit struct / glob-imported variant is NOT a binder in Rust
-                if n.chars().next().map(|c| c.is_uppercase()).unwrap_or(false) || self.t.consts.iter().any(|c| c.key == n || c.key.ends_with(&format!("::{}", n))) {
+                if n.chars().next().map(|c| c.is_uppercase()).unwrap_or(false)
+                    || self.t.consts.iter().any(|c| c.key == n || c.key.ends_with(&format!("::{}", n)))
+                    || self.t.file_defs.get(&self.cur_file).map(|d| d.consts.contains(&n)).unwrap_or(false)
+                {
                     return Err(unsupported(p, &format!("identifier pattern `{}` that may name a constant or an enum variant (write the path, e.g. `Enum::{}`)", n, n)));
                 }
                 let c = self.fresh(&n);
@@ -606,7 +671,7 @@ impl<'a> Tr<'a> {
                 if s.ctor == "-" {
                     return Err(unsupported(at, &format!("`{}` has no constructor in the configured mapping", sn)));
                 }
-                return Ok((s.ctor.clone(), s.fields.iter().map(|f| (Some(f.name.clone()), f.ty.clone())).collect()));
+                return Ok((s.ctor.clone(), s.fields.iter().filter(|f| !is_phantom(&f.ty)).map(|f| (Some(f.name.clone()), f.ty.clone())).collect()));
             }
         }
         Err(unsupported(at, &format!("path `{}` is neither a configured enum variant nor a configured struct", segs.join("::"))))
